@@ -319,7 +319,12 @@ fn spawn_shard(def: &'static CheckDef, ctx: Ctx, replay_case: Option<Value>) -> 
         let result = std::panic::catch_unwind(std::panic::AssertUnwindSafe(|| {
             match &replay_case {
                 Some(case) => (def.replay)(case, &mut rec),
-                None => (def.run)(&mut rec),
+                None => {
+                    if rec.ctx.shard == 0 {
+                        replay_committed(def, &mut rec);
+                    }
+                    (def.run)(&mut rec)
+                }
             }
         }));
         if let Err(e) = result {
@@ -392,6 +397,33 @@ fn wait_children(children: &[Child], deadline_s: u64) -> Vec<Result<ShardResult,
         std::thread::sleep(std::time::Duration::from_millis(5));
     }
     done.into_iter().map(|d| d.unwrap()).collect()
+}
+
+/// Seconds-long replay tier: committed shrunk inputs of repaired defects
+/// (regressions/<id>/) and witnesses of open findings (findings/<id>/).
+fn replay_committed(def: &'static CheckDef, rec: &mut Rec) {
+    for sub in ["regressions", "findings"] {
+        let dir = format!("{}/{}/{}", VERIF_ROOT, sub, def.id);
+        let mut files: Vec<PathBuf> = match std::fs::read_dir(&dir) {
+            Ok(rd) => rd.filter_map(|e| e.ok()).map(|e| e.path()).filter(|p| p.extension().map(|x| x == "json").unwrap_or(false)).collect(),
+            Err(_) => continue,
+        };
+        files.sort();
+        for f in files {
+            let text = match std::fs::read_to_string(&f) {
+                Ok(t) => t,
+                Err(_) => continue,
+            };
+            let doc: Value = match serde_json::from_str(&text) {
+                Ok(v) => v,
+                Err(_) => continue,
+            };
+            let case = doc.get("case").cloned().unwrap_or(doc.clone());
+            rec.current(&case.to_string());
+            (def.replay)(&case, rec);
+            rec.class(&format!("replayed-{}", sub), 1);
+        }
+    }
 }
 
 pub struct Outcome {
